@@ -315,11 +315,17 @@ def write_replay(ctx, case_lines, bad_line, trace_file, note=""):
 # ---------------------------------------------------------------- known findings
 
 def load_known(pid):
-    p = os.path.join(ROOT, "known_findings.json")
-    if not os.path.exists(p):
-        return []
-    with open(p) as f:
-        return [k for k in json.load(f).get("findings", []) if k.get("property") == pid and k.get("status") == "known"]
+    """known findings: /verif/known_findings.json (+ fragments known/<ID>.json while a check is being built)."""
+    out = []
+    for p in [os.path.join(ROOT, "known_findings.json"), os.path.join(ROOT, "known", pid + ".json")]:
+        if os.path.exists(p):
+            with open(p) as f:
+                out += [k for k in json.load(f).get("findings", []) if k.get("property") == pid and k.get("status") == "known"]
+    seen, uniq = set(), []
+    for k in out:
+        if k["id"] not in seen:
+            seen.add(k["id"]); uniq.append(k)
+    return uniq
 
 
 def match_known(known, case_rec, bad_event):
